@@ -129,6 +129,8 @@ Plan parse_plan(const std::string &text) {
             p.mut.push_back(m);
         } else if (kv.op == "inj") {
             p.inj.push_back(Inj{kv.u64("t"), sim::unhex(kv.str("data")), kv.str("note")});
+        } else if (kv.op == "restart") {
+            p.restart.push_back(kv.u64("t"));
         } else if (kv.op == "stall") {
             p.stall.push_back(Stall{kv.u64("t"), (int)kv.u64("node"), kv.u64("dur")});
         }
@@ -140,7 +142,9 @@ Plan parse_plan(const std::string &text) {
 struct RunState {
     Plan plan;
     World *w = nullptr;
-    int listener = -1;
+    int listener = -1, talker = 0;
+    std::vector<std::string> talker_argv;
+    int restarts = 0;
     bool listener_started = false;  // reached its first recv/poll
     // C19 bookkeeping
     std::vector<CanRec> pending_cargo;                   // frames read by the talker since its last sendto
@@ -323,7 +327,8 @@ static void setup_nodes(RunState &rs) {
         ta.push_back("-c"); ta.push_back(std::to_string(p.count));
         add(ta, {"--canif", "vcan0"});
         add(la, {"--canif", "vcan1"});
-        w.add_node("talker", "acf-can-talker", PICK(acf_can_talker_main), ta, false);
+        rs.talker = w.add_node("talker", "acf-can-talker", PICK(acf_can_talker_main), ta, false);
+        rs.talker_argv = ta;
         rs.listener = w.add_node("listener", "acf-can-listener", PICK(acf_can_listener_main), la, true);
     } else if (p.scen == "cvf") {
         w.add_node("talker", "cvf-talker", PICK(cvf_talker_main), V({"-i", "eth0", "-d", kMacStream, "-m", mtt.c_str()}), false);
@@ -493,11 +498,11 @@ void exec_plan(const std::string &text, bool verbose) {
     };
     // ---- hooks
     w.hooks.on_can_read = [](World &, int node, const CanRec &c) {
-        if (node == 0) g_rs->pending_cargo.push_back(c);
+        if (node == g_rs->talker) g_rs->pending_cargo.push_back(c);
     };
     w.hooks.on_send = [c19](World &w, int node, Frame &f) {
         RunState &rs = *g_rs;
-        if ((rs.plan.scen == "tunnel" || rs.plan.scen == "can") && node == 0) {
+        if ((rs.plan.scen == "tunnel" || rs.plan.scen == "can") && node == rs.talker) {
             rs.cargo[f.id] = rs.pending_cargo;
             if (c19) {
                 std::string e = check_framing(rs.plan, f.data, rs.pending_cargo.size());
@@ -585,6 +590,29 @@ void exec_plan(const std::string &text, bool verbose) {
             }
         });
     }
+    // crash and restart of the talker process (tunnel): the old process vanishes with everything it had read but not sent and with
+    // the frames queued on its CAN socket; the new one starts from a fresh process image (the other build variant's copy of the program:
+    // its file-scope statics have never been touched) with the same command line
+    if (p.scen == "tunnel" && p.restart.size() <= 2)
+        for (uint64_t rt : p.restart)
+            w.at(w.t_origin + rt, [&w] {
+                RunState &rs = *g_rs;
+                if (rs.restarts >= 2) return;
+                int old = rs.talker;
+                sim::Task *ot = w.tasks.get(w.nodes[old].task);
+                if (ot->state == sim::Task::DONE) return;
+                ot->state = sim::Task::DONE;
+                w.nodes[old].waiting = true;
+                for (auto &e : w.fds) if (e.kind != FdEnt::FREE && e.node == old) e = FdEnt();
+                rs.pending_cargo.clear();
+                bool use_o0 = (rs.restarts % 2 == 0) ? !rs.plan.o0 : rs.plan.o0;
+                int64_t off = w.nodes[old].clock_offset;
+                rs.talker = w.add_node(strf("talker%d", rs.restarts + 2), "acf-can-talker", use_o0 ? O0_acf_can_talker_main : acf_can_talker_main, rs.talker_argv, false);
+                w.nodes[rs.talker].clock_offset = off;
+                rs.restarts++;
+                w.count("fault.talker_restart");
+                w.log("restart", (uint64_t)old, (uint64_t)rs.talker);
+            });
     if (p.quiet_t) w.at(w.t_origin + p.quiet_t, [&w] {
         g_rs->quiet = true;
         w.rxq_cap = 4096;
@@ -612,9 +640,12 @@ void exec_plan(const std::string &text, bool verbose) {
         // the talker end: every frame the bus delivered has been read, and all but an incomplete last batch has been sent
         if (rs.pending_cargo.size() >= (size_t)std::max(1, p.count))
             violation("frame-count:unsent", strf("the talker read %zu frames that it never sent (it sends after every %d frames); %llu datagrams sent",
-                                                 rs.pending_cargo.size(), p.count, (unsigned long long)w.nodes[0].sent));
+                                                 rs.pending_cargo.size(), p.count, (unsigned long long)w.nodes[rs.talker].sent));
+        if (p.fd && w.counters.count("ev.can_fd_frame_not_accepted"))
+            violation("frame-count:not-accepted", strf("%llu FD frames were offered to a talker started with --fd whose CAN socket does not accept FD frames (CAN_RAW_FD_FRAMES is not enabled on it)",
+                                                       (unsigned long long)w.counters["ev.can_fd_frame_not_accepted"]));
         for (auto &e : w.fds)
-            if (e.kind == FdEnt::CAN && e.node == 0 && !e.canq.empty())
+            if (e.kind == FdEnt::CAN && e.node == rs.talker && !e.canq.empty())
                 violation("frame-count:unread", strf("%zu frames are still waiting on the talker's CAN socket at the end of the run", e.canq.size()));
         r = base_result(w);
         r.nontrivial = !rs.expected.empty();
